@@ -11,6 +11,7 @@
     quiescent point a digest of lasio's module-level state and the snapshots of all objects the
     history did not mutate must be unchanged."""
 import copy
+import codecs
 import io
 import os
 import pathlib
@@ -33,7 +34,7 @@ ASSUMPTIONS = [
     "chardet-based detection is environment dependent and is not part of any oracle: every file is either UTF-8 with BOM or read with an explicit encoding=",
     "CR-only line ends are used for files only (text-mode universal newlines); strings are given LF or CRLF",
 ]
-REQUIRED = ["channel_reads_compared", "channel_str_path", "channel_Path", "channel_file_object", "channel_StringIO", "channel_string",
+REQUIRED = ["channel_reads_compared", "channel_str_path", "channel_Path", "channel_file_object", "channel_StringIO", "channel_string", "channel_codecs_open_file_object",
             "channel_cases_multibyte_char_at_window_boundary", "channel_cases_variant_remark_after", "codec_utf-8-sig", "codec_utf-8", "codec_utf-16", "codec_utf-16-le", "codec_utf-16-be", "codec_latin-1", "codec_cp1252",
             "eol_CR", "eol_CRLF", "channel_cases_indented_titles", "history_reads_compared", "rereads_after_mutation", "quiescent_state_checks", "unmutated_object_checks"]
 SOFT_DEADLINE = {"quick": 100, "thorough": 1500}
@@ -167,6 +168,12 @@ def run_channels(case, ctx):
                 ("LASFile_constructor", lambda: lasio.LASFile(path, **enc_kw)),
                 ("str_path_second_read", lambda: lasio.read(path, **enc_kw)),
                 ("file_object", None),
+                # other open text files: the codecs module's readers (what lasio's documentation still names), whose tell() is the
+                # byte stream's read-ahead position
+                ("codecs_open_file_object", (lambda: lasio.read(codecs.open(path, "r", encoding="utf-8-sig" if codec == "utf-8-sig" else codec)))
+                 if eolname != "CR" and not codec.startswith("utf-16") else None),
+                ("codecs_getreader_file_object", (lambda: lasio.read(codecs.getreader(codec)(open(path, "rb"))))
+                 if eolname == "LF" and codec in ("latin-1", "cp1252", "utf-8") else None),
                 ("StringIO", lambda: lasio.read(io.StringIO(data if eolname != "CR" else text))),
                 ("string", lambda: lasio.read(data if eolname != "CR" else text))]
     for name, thunk in channels:
